@@ -17,6 +17,7 @@
 //!   finish <aid> <ok|err|panic>      kill <aid>
 //!   resize <n>                       settings <disc> <n|->        drain
 //!   advance <ms>                     block          release <n>       nop
+//!   ping <limit>                     (FactoryMessage::DoPings; `dyn=1` cases: the DynamicDiscardController answers <limit>)
 //!   sethandler <hid|none>   (UpdateSettings: a NEW discard handler with identity hid, or none)
 //! observation:
 //!   build=[wid.aid,..] start=[aid:id:key,..] disc=[Reason:id@hid,..] hook=[..] acc=[id:a|b|x,..]
@@ -30,7 +31,7 @@ use ractor::factory::routing::{
     StickyQueuerRouting,
 };
 use ractor::factory::{
-    DiscardHandler, DiscardMode, DiscardReason, DiscardSettings, Factory, FactoryArguments, FactoryLifecycleHooks,
+    DiscardHandler, DiscardMode, DiscardReason, DiscardSettings, DynamicDiscardController, Factory, FactoryArguments, FactoryLifecycleHooks,
     FactoryMessage, Job, JobOptions, UpdateSettingsRequest, Worker, WorkerBuilder, WorkerCapacityController, WorkerId,
 };
 use ractor::rpc::CallResult;
@@ -67,6 +68,8 @@ struct Shared {
     cc_gate: Option<oneshot::Sender<usize>>,
     /// worker queue lengths right after the last `route_message` of this step
     wq: Option<Vec<(usize, usize)>>,
+    /// what the `DynamicDiscardController` of this case answers next (set by `ping <limit>` and by every settings update)
+    dyn_next: usize,
 }
 type Sh = Arc<Mutex<Shared>>;
 
@@ -278,18 +281,20 @@ struct CaseCfg {
     rl: String,
     hash: Vec<usize>,
     cc: bool,
+    /// `DiscardSettings::Dynamic` (limit set by the controller at every `DoPings`) instead of `Static`
+    dynamic: bool,
 }
 
 impl CaseCfg {
     fn line(&self) -> String {
         let h = if self.hash.is_empty() { "-".to_string() } else { self.hash.iter().map(|v| v.to_string()).collect::<Vec<_>>().join(",") };
         format!(
-            "case r={} q={} n={} disc={} dh={} rl={} hash={} cc={}",
-            self.router, self.queue, self.n, self.disc, self.dh as u8, self.rl, h, self.cc as u8
+            "case r={} q={} n={} disc={} dh={} rl={} hash={} cc={} dyn={}",
+            self.router, self.queue, self.n, self.disc, self.dh as u8, self.rl, h, self.cc as u8, self.dynamic as u8
         )
     }
     fn parse(line: &str) -> Option<CaseCfg> {
-        let mut c = CaseCfg { router: "q".into(), queue: "def".into(), n: 1, disc: "none".into(), dh: true, rl: "none".into(), hash: vec![], cc: false };
+        let mut c = CaseCfg { router: "q".into(), queue: "def".into(), n: 1, disc: "none".into(), dh: true, rl: "none".into(), hash: vec![], cc: false, dynamic: false };
         let mut it = line.split_whitespace();
         if it.next()? != "case" {
             return None;
@@ -305,6 +310,7 @@ impl CaseCfg {
                 "rl" => c.rl = v.into(),
                 "hash" => c.hash = if v == "-" { vec![] } else { v.split(',').filter_map(|x| x.parse().ok()).collect() },
                 "cc" => c.cc = v == "1",
+                "dyn" => c.dynamic = v == "1",
                 "t" => {}
                 _ => return None,
             }
@@ -313,11 +319,29 @@ impl CaseCfg {
     }
 }
 
-fn parse_disc(s: &str) -> DiscardSettings {
-    match s.split_once(':') {
-        Some(("newest", l)) => DiscardSettings::Static { limit: l.parse().unwrap(), mode: DiscardMode::Newest },
-        Some(("oldest", l)) => DiscardSettings::Static { limit: l.parse().unwrap(), mode: DiscardMode::Oldest },
-        _ => DiscardSettings::None,
+/// the case's `DynamicDiscardController`: answers whatever the script set last
+struct DynCtl {
+    sh: Sh,
+}
+impl DynamicDiscardController for DynCtl {
+    fn compute(&mut self, _current_threshold: usize) -> std::pin::Pin<Box<dyn std::future::Future<Output = usize> + Send + '_>> {
+        let v = self.sh.lock().unwrap().dyn_next;
+        Box::pin(async move { v })
+    }
+}
+
+fn parse_disc(s: &str, dynamic: bool, sh: &Sh) -> DiscardSettings {
+    let (limit, mode) = match s.split_once(':') {
+        Some(("newest", l)) => (l.parse().unwrap(), DiscardMode::Newest),
+        Some(("oldest", l)) => (l.parse().unwrap(), DiscardMode::Oldest),
+        _ => return DiscardSettings::None,
+    };
+    if dynamic {
+        // a timer-driven `DoPings` must find the limit it already has
+        sh.lock().unwrap().dyn_next = limit;
+        DiscardSettings::Dynamic { limit, mode, updater: Box::new(DynCtl { sh: sh.clone() }) }
+    } else {
+        DiscardSettings::Static { limit, mode }
     }
 }
 
@@ -330,6 +354,17 @@ struct H {
     acc: Vec<(u64, oneshot::Receiver<Option<Job<K, M>>>)>,
     blocked: bool,
     live: Vec<u64>,
+    /// steps in which the factory was still up at quiescence and was stopped only by the observer's own
+    /// query message (a draining factory whose last busy worker died: `handle_supervisor_evt` has no
+    /// `is_drained()` check, the next message of any kind stops it)
+    stop_by_query: u64,
+    /// discard-handler calls with reason RateLimited
+    rl_refused: u64,
+    /// talk to the factory through the `factory_ref` convenience API (dispatch_job, adjust_worker_pool,
+    /// update_settings, drain_requests, queue_depth, active_workers, available_capacity) instead of raw messages
+    via_ref: bool,
+    dynamic: bool,
+    pings: u64,
 }
 
 impl H {
@@ -347,6 +382,17 @@ impl H {
     }
 
     async fn query(&self, which: u8) -> String {
+        if self.via_ref {
+            let r = match which {
+                0 => self.factory.queue_depth(None).await,
+                1 => self.factory.active_workers(None).await,
+                _ => self.factory.available_capacity(None).await,
+            };
+            return match r {
+                Ok(CallResult::Success(v)) => v.to_string(),
+                _ => "x".into(),
+            };
+        }
         let r = match which {
             0 => self.factory.call(FactoryMessage::GetQueueDepth, None).await,
             1 => self.factory.call(FactoryMessage::GetNumActiveWorkers, None).await,
@@ -361,6 +407,7 @@ impl H {
     /// run to quiescence, query, run to quiescence, collect; returns (times, observation)
     async fn observe(&mut self, t_op: u128) -> (String, String) {
         self.quiesce().await;
+        let up0 = self.factory.get_status() != ActorStatus::Stopped;
         let tq = self.now();
         let (q, act, cap) = if self.blocked {
             ("?".to_string(), "?".to_string(), "?".to_string())
@@ -377,6 +424,7 @@ impl H {
         let mut starts = std::mem::take(&mut s.starts);
         starts.sort();
         let discs = std::mem::take(&mut s.discs);
+        self.rl_refused += discs.iter().filter(|d| d.starts_with("RateLimited")).count() as u64;
         let hooks = std::mem::take(&mut s.hooks);
         let wq = s.wq.take();
         let nbuilt = s.next_aid;
@@ -407,6 +455,9 @@ impl H {
         live.sort();
         self.live = live.clone();
         let up = if self.factory.get_status() == ActorStatus::Stopped { 0 } else { 1 };
+        if up0 && up == 0 && !self.blocked {
+            self.stop_by_query += 1;
+        }
         let j = |v: &[String]| v.join(",");
         let obs = format!(
             "build=[{}] start=[{}] disc=[{}] hook=[{}] acc=[{}] up={} q={} act={} cap={} live=[{}] wq={}{}",
@@ -449,7 +500,8 @@ impl H {
                     job.accepted = Some(RpcReplyPort::from(tx));
                     self.acc.push((id, rx));
                 }
-                if self.factory.cast(FactoryMessage::Dispatch(job)).is_err() {
+                let failed = if self.via_ref { self.factory.dispatch_job(job).is_err() } else { self.factory.cast(FactoryMessage::Dispatch(job)).is_err() };
+                if failed {
                     note = " sendfail".into();
                     if *acc == "1" {
                         self.acc.pop();
@@ -486,16 +538,19 @@ impl H {
                 }
             }
             ["resize", n] => {
-                if self.factory.cast(FactoryMessage::AdjustWorkerPool(n.parse().unwrap())).is_err() {
+                let n: usize = n.parse().unwrap();
+                let failed = if self.via_ref { self.factory.adjust_worker_pool(n).is_err() } else { self.factory.cast(FactoryMessage::AdjustWorkerPool(n)).is_err() };
+                if failed {
                     note = " sendfail".into();
                 }
             }
             ["settings", disc, n] => {
                 let req = UpdateSettingsRequest::builder()
-                    .maybe_discard_settings(if *disc == "-" { None } else { Some(parse_disc(disc)) })
+                    .maybe_discard_settings(if *disc == "-" { None } else { Some(parse_disc(disc, self.dynamic, &self.sh)) })
                     .maybe_worker_count(n.parse().ok())
                     .build();
-                if self.factory.cast(FactoryMessage::UpdateSettings(req)).is_err() {
+                let failed = if self.via_ref { self.factory.update_settings(req).is_err() } else { self.factory.cast(FactoryMessage::UpdateSettings(req)).is_err() };
+                if failed {
                     note = " sendfail".into();
                 }
             }
@@ -505,12 +560,29 @@ impl H {
                     Err(_) => None,
                 };
                 let req = UpdateSettingsRequest::builder().discard_handler(nh).build();
-                if self.factory.cast(FactoryMessage::UpdateSettings(req)).is_err() {
+                let failed = if self.via_ref { self.factory.update_settings(req).is_err() } else { self.factory.cast(FactoryMessage::UpdateSettings(req)).is_err() };
+                if failed {
                     note = " sendfail".into();
                 }
             }
+            ["ping", nl] => {
+                // the factory's own ping tick (normally a 10 s timer): with `DiscardSettings::Dynamic` the controller is
+                // asked for the new limit; the workers are pinged
+                if self.blocked {
+                    // what a ping does depends on the settings in force when the factory gets to it; behind a held-busy
+                    // factory that is not known when the op is issued, so the op is not performed
+                    note = " noping".into();
+                } else {
+                    self.sh.lock().unwrap().dyn_next = nl.parse().unwrap();
+                    self.pings += 1;
+                    if self.factory.cast(FactoryMessage::DoPings(ractor::concurrency::Instant::now())).is_err() {
+                        note = " sendfail".into();
+                    }
+                }
+            }
             ["drain"] => {
-                if self.factory.cast(FactoryMessage::DrainRequests).is_err() {
+                let failed = if self.via_ref { self.factory.drain_requests().is_err() } else { self.factory.cast(FactoryMessage::DrainRequests).is_err() };
+                if failed {
                     note = " sendfail".into();
                 }
             }
@@ -566,6 +638,8 @@ where
     Q: Queue<K, M>,
 {
     let t0 = Instant::now();
+    let rname = cfg.router.clone();
+    let via_ref = cfg.line().bytes().fold(0u32, |a, b| a.wrapping_mul(31).wrapping_add(b as u32)) % 2 == 0;
     let sh: Sh = Arc::new(Mutex::new(Shared::default()));
     let lim = match cfg.rl.as_str() {
         "none" => Lim::Off,
@@ -587,14 +661,14 @@ where
         .router(Spy { inner: RateLimitedRouter::builder().router(router).rate_limiter(lim).build(), sh: sh.clone() })
         .worker_builder(Box::new(GB { sh: sh.clone() }))
         .maybe_discard_handler(if cfg.dh { Some(Arc::new(Disc { sh: sh.clone(), hid: 0 }) as Arc<dyn DiscardHandler<K, M>>) } else { None })
-        .discard_settings(parse_disc(&cfg.disc))
+        .discard_settings(parse_disc(&cfg.disc, cfg.dynamic, &sh))
         .lifecycle_hooks(Box::new(Hooks { sh: sh.clone() }))
         .maybe_capacity_controller(if cfg.cc { Some(Box::new(CC { sh: sh.clone() }) as Box<dyn WorkerCapacityController>) } else { None })
         .build();
     let def = Factory::<K, M, (), GW, Spy<RateLimitedRouter<R, Lim>>, Q>::default();
     let (factory, _handle) = Actor::spawn(None, def, args).await.expect("factory spawn");
     let fid = factory.get_id().pid();
-    let mut h = H { factory, fid, sh: sh.clone(), t0, acc: vec![], blocked: false, live: vec![] };
+    let mut h = H { factory, fid, sh: sh.clone(), t0, acc: vec![], blocked: false, live: vec![], stop_by_query: 0, rl_refused: 0, via_ref, dynamic: cfg.dynamic, pings: 0 };
     // half a millisecond off the grid of the factory's own timers
     tokio::time::sleep(Duration::from_micros(500)).await;
     let (times, obs) = h.observe(0).await;
@@ -645,6 +719,39 @@ where
                     let k = rng.below(nkeys);
                     opening.push(gen_dispatch_with(&mut next_id, k, "-", 0));
                 }
+            }
+            if cfg.n == 0 && profile < 7 && rng.chance(1, 2) {
+                // an empty pool: the jobs wait in the factory queue (whatever the router), then the pool gets
+                // its first workers and the backlog is flushed through the router
+                for _ in 0..rng.range(2, 9) {
+                    let k = rng.below(nkeys.max(4));
+                    opening.push(gen_dispatch_with(&mut next_id, k, "-", 0));
+                }
+                size = rng.range(2, 4) as usize;
+                opening.push(format!("resize {size}"));
+                st.lock().unwrap().bump("opening_backlog_then_first_workers");
+            }
+            if cfg.cc && cfg.n >= 2 && (cfg.router == "sq" || cfg.router == "q") && profile < 7 && rng.chance(1, 3) {
+                // every worker busy, a backlog with repeated keys, two workers finish (sticky routing then leaves one
+                // of them idle next to the backlog), the factory is held busy, an idle worker is killed, the release
+                // grows the pool: the flush hands a job to the dead idle worker
+                if cfg.disc != "none" {
+                    opening.push("settings none -".into());
+                }
+                for w in 0..cfg.n as u64 {
+                    opening.push(gen_dispatch_with(&mut next_id, 100 + w, "-", 0));
+                }
+                let (ka, kb) = (rng.below(nkeys.max(3)), rng.below(nkeys.max(3)) + 50);
+                for k in [ka, ka, kb, kb] {
+                    opening.push(gen_dispatch_with(&mut next_id, k, "-", 0));
+                }
+                opening.push("finish 0 ok".into());
+                opening.push("finish 1 ok".into());
+                opening.push("block".into());
+                opening.push(format!("kill {}", rng.pick(&[0u64, 1, 1])));
+                size = cfg.n + 1;
+                opening.push(format!("release {size}"));
+                st.lock().unwrap().bump("opening_kill_idle_worker_while_busy");
             }
             let first_disc = cfg.disc.clone();
             for op in opening {
@@ -724,6 +831,7 @@ where
                             "drain".to_string()
                         }
                         10 => format!("advance {}", rng.pick(&[1u64, 3, 50, 120])),
+                        11 if cfg.dynamic => format!("ping {}", rng.pick(&[0u64, 1, 2, 3, 5])),
                         _ => {
                             let n = if rng.chance(1, 2) { size } else { rng.range(0, 4) as usize };
                             if n != 0 {
@@ -768,6 +876,7 @@ where
                             "drain".to_string()
                         }
                         95..=97 if cfg.cc => "block".to_string(),
+                        98 => format!("ping {}", rng.pick(&[0u64, 1, 2, 3, 5])),
                         _ => gen_dispatch(&mut rng, &mut next_id, nkeys),
                     }
                 };
@@ -786,6 +895,18 @@ where
         }
     }
     // tear down: stop the factory (post_stop stops the workers)
+    st.lock().unwrap().add("drained_factory_stopped_only_by_next_message", h.stop_by_query);
+    st.lock().unwrap().add("ratelimited_refusals", h.rl_refused);
+    st.lock().unwrap().add("ping_ops", h.pings);
+    if h.dynamic {
+        st.lock().unwrap().add("ping_ops_with_dynamic_discard_settings", h.pings);
+    }
+    if h.via_ref {
+        st.lock().unwrap().bump("case_via_factory_ref_api");
+    }
+    if rname == "q" {
+        st.lock().unwrap().add("queuer_ratelimited_refusals", h.rl_refused);
+    }
     h.factory.stop(None);
     for (_, tx) in h.sh.lock().unwrap().gates.drain() {
         let _ = tx.send(Outcome::Ok);
@@ -840,7 +961,10 @@ fn gen_cfg(rng: &mut Rng, k: u64) -> CaseCfg {
     } else {
         vec![]
     };
-    CaseCfg { router, queue, n: *rng.pick(&[0usize, 1, 1, 2, 2, 3, 4]), disc, dh: !rng.chance(1, 8), rl, hash, cc: rng.chance(1, 3) }
+    // `Dynamic` settings only with the routers that queue at the factory: there the worker side of a ping (the pong
+    // carries the new limit to the worker's own settings) has nothing to update
+    let dynamic = (router == "q" || router == "sq") && disc != "none" && rng.chance(1, 2);
+    CaseCfg { router, queue, n: *rng.pick(&[0usize, 1, 1, 2, 2, 3, 4]), disc, dh: !rng.chance(1, 8), rl, hash, cc: rng.chance(1, 3), dynamic }
 }
 
 fn run_one(cfg: CaseCfg, script: Script, st: Arc<Mutex<Stats>>) -> Vec<(String, String)> {
@@ -929,6 +1053,9 @@ fn main() {
         {
             let mut s = st.lock().unwrap();
             s.bump("case");
+            if cfg.dynamic {
+                s.bump("dynamic_discard_case");
+            }
             s.bump(&format!("router_{}", cfg.router));
             s.bump(&format!("queue_{}", cfg.queue));
             s.bump(&format!("disc_{}", cfg.disc.split(':').next().unwrap()));
